@@ -677,8 +677,8 @@ Definition b2z (b : bool) : Z := if b then 1 else 0.
 
 Definition view_obs (s : option sess) : list Z :=
   match s with
-  | Some s => [s_suite s; b2z (s_ems s); b2z (s_etm s); s_sni s; s_ccert s; b2z (nz (s_sid s))]
-  | None => [0; 0; 0; 0; 0; 0]
+  | Some s => [s_suite s; b2z (s_ems s); b2z (s_etm s); s_sni s; s_ccert s; b2z (nz (s_sid s)); s_srp s]
+  | None => [0; 0; 0; 0; 0; 0; 0]
   end.
 
 Definition observe {blob} (r : cres blob) : list Z :=
